@@ -28,6 +28,8 @@ type EstCase struct {
 	Conf    []float64   `json:"config"`  // normal: [sigmaMin]; exponential: [lambdaMax]; negbin: [r]; categorical: [K]; scalariid: [sigmaMin, n]
 	X       [][]float64 `json:"data"`
 	G       []int       `json:"log_weight_index"` // indexes into {0, log 1/2, log 1/4}; null = no weights (gamma nil)
+	// common offset added to every log-weight (shift-invariance family; 0 = the plain cases)
+	Shift float64 `json:"log_weight_shift,omitempty"`
 }
 
 func guard(f func() error) (err error) {
@@ -118,7 +120,7 @@ func (cs *EstCase) weights() (ad.ConstVector, []float64) {
 	}
 	g := ad.NullDenseFloat64Vector(len(cs.G))
 	for i, gi := range cs.G {
-		g.At(i).SetFloat64(gammaAlph[gi])
+		g.At(i).SetFloat64(gammaAlph[gi] + cs.Shift)
 		if i < len(w) {
 			w[i] = []float64{1, 0.5, 0.25}[gi]
 		}
@@ -352,7 +354,7 @@ func (cs *EstCase) gammaValues() interface{} {
 	}
 	r := make([]float64, len(cs.G))
 	for i, g := range cs.G {
-		r[i] = gammaAlph[g]
+		r[i] = gammaAlph[g] + cs.Shift
 	}
 	return r
 }
@@ -429,6 +431,7 @@ func runClosed(c *vf.Ctx, nmax int) {
 			}
 		}
 	}
+	runShift(c, &idx)
 	// ScalarIid: (a) one observation vector of dimension d, estimator dimension d,
 	// (b) several vectors with estimator dimension -1 (variable), unweighted
 	vals := []float64{-1, 0, 0.5, 2}
@@ -451,6 +454,125 @@ func runClosed(c *vf.Ctx, nmax int) {
 					X[k] = []float64{vals[v/len(vals)], vals[v%len(vals)]}
 				}
 				each(EstCase{Family: "scalariid", Variant: "estimate", Conf: []float64{smin, -1}, X: X, G: nil})
+			}
+		}
+	}
+}
+
+/* invariance under a common offset of the log-weights
+ * -------------------------------------------------------------------------- */
+
+// Log-weights are defined up to a common constant: the estimators work on the log scale
+// (poisson, exponential, geometric, categorical, negative binomial accumulate with LogAdd;
+// the normal estimators subtract the maximal log-weight in Estimate), and the callers inside
+// the library hand over log-responsibilities of an E-step, which are of arbitrary common
+// magnitude for a component far away from all observations (and get an outer
+// log-responsibility added in nested EM).  Demanded for every weighted estimator, through
+// Estimate/EstimateOnData and through the batch interface: the same data with every
+// log-weight shifted by c gives the estimate of the unshifted weights within rounding.
+var shiftLattice = []float64{-745, -700, -300, 300, 700}
+
+func runShiftCase(c *vf.Ctx, cs *EstCase, idx int64) {
+	rk := int64(len(cs.X))<<40 | idx&(1<<40-1)
+	key := func(wh string) string {
+		conf := cs.Conf
+		if cs.Family == "scalariid" {
+			conf = conf[:1]
+		}
+		return fmt.Sprintf("%s.%s|conf=%v|log-weight-shift=%+g|shift-invariance|%s", cs.Family, cs.Variant, conf, cs.Shift, wh)
+	}
+	viol := func(wh, msg string) {
+		c.Violate(key(wh), fmt.Sprintf("%s %s estimator: %s [data=%v log-weights=%v conf=%v]", cs.Family, cs.Variant, msg, cs.X, cs.gammaValues(), cs.Conf), rk, AnyCase{Est: cs})
+	}
+	c.Eval(1)
+	// data for which the weighted likelihood has no maximiser at admissible parameters
+	// (all-zero Poisson data, singular sample covariance): what the estimator returns or
+	// whether it fails there is decided by rounding, nothing to compare
+	_, w := cs.weights()
+	if _, status := mle(cs.Family, cs.Conf, cs.X, w); strings.HasPrefix(status, "boundary") {
+		c.Outcome(cs.Family + ":shift:" + status)
+		return
+	}
+	base := *cs
+	base.Shift = 0
+	th0, err0 := libEstimate(&base)
+	th1, err1 := libEstimate(cs)
+	for _, e := range []error{err0, err1} {
+		if e != nil && strings.HasPrefix(e.Error(), "harness") {
+			c.HarnessError(e.Error())
+			return
+		}
+	}
+	if err0 != nil {
+		// no estimate for the unshifted weights (boundary data, or a finding of the plain cases)
+		c.Outcome(cs.Family + ":shift:unshifted-fails")
+		return
+	}
+	if err1 != nil {
+		wh := "error"
+		if errKind(err1) == "panic" {
+			wh = "panic"
+		}
+		viol(wh, fmt.Sprintf("with every log-weight shifted by %+g the estimator fails (%v); unshifted it returns %v", cs.Shift, err1, th0))
+		return
+	}
+	for i := range th0 {
+		if i >= len(th1) || !(math.Abs(th1[i]-th0[i]) <= 1e-9*math.Max(1, math.Abs(th0[i]))) {
+			viol("estimate-differs", fmt.Sprintf("with every log-weight shifted by %+g the estimate is %v; unshifted %v", cs.Shift, th1, th0))
+			return
+		}
+	}
+	distinct := false
+	for _, x := range cs.X {
+		if fmt.Sprint(x) != fmt.Sprint(cs.X[0]) {
+			distinct = true
+		}
+	}
+	if distinct {
+		c.Nontrivial(1)
+	}
+	c.Outcome(cs.Family + ":shift:invariant")
+}
+
+func runShift(c *vf.Ctx, idx *int64) {
+	each := func(cs EstCase) {
+		*idx++
+		if c.Mine(*idx) {
+			c.Guard("closed-form-shift", *idx, AnyCase{Est: &cs})
+			runShiftCase(c, &cs, *idx)
+		}
+	}
+	for _, f := range closedFamilies() {
+		for _, conf := range f.confs {
+			for n := 1; n <= 3; n++ {
+				for _, xi := range tuples(n, len(f.alph)) {
+					X := make([][]float64, n)
+					for k, v := range xi {
+						X[k] = f.alph[v]
+					}
+					for _, g := range tuples(n, 3) {
+						for _, sh := range shiftLattice {
+							each(EstCase{Family: f.family, Variant: "estimate", Conf: conf, X: X, G: g, Shift: sh})
+							if f.batch {
+								each(EstCase{Family: f.family, Variant: "batch", Conf: conf, X: X, G: g, Shift: sh})
+							}
+						}
+					}
+				}
+			}
+		}
+	}
+	vals := []float64{-1, 0, 0.5, 2}
+	for _, smin := range []float64{1e-8, 0.5} {
+		for d := 1; d <= 3; d++ {
+			for _, xi := range tuples(d, len(vals)) {
+				x := make([]float64, d)
+				for k, v := range xi {
+					x[k] = vals[v]
+				}
+				for _, sh := range shiftLattice {
+					each(EstCase{Family: "scalariid", Variant: "estimate", Conf: []float64{smin, float64(d)}, X: [][]float64{x}, G: []int{1}, Shift: sh})
+				}
 			}
 		}
 	}
